@@ -11,6 +11,7 @@ meshes' arrays are read-only: a "read-only" ValueError is a mutation witness.
 from __future__ import annotations
 
 import hashlib
+import os
 
 import numpy as np
 
@@ -37,7 +38,8 @@ REQUIRED_REACH = ["warm:element-on-second-mesh", "warm:global-element-on-second-
                   "warm:jacobian-cache-same-bytes-other-shape", "warm:jacobian-cache-other-dtype", "warm:kd-tree",
                   "warm:solver-closure-other-size", "warm:solver-closure-per-call-kwargs", "warm:affine-lazy",
                   "warm:basis-reused", "readonly-pass", "retained-basis-reread", "retained:lbasis-other-points",
-                  "retained:refinterp", "retained:second-basis-same-length-rule", "composite-basis-components-reused"]
+                  "retained:refinterp", "retained:second-basis-same-length-rule", "composite-basis-components-reused",
+                  "fresh-interpreter-reference"]
 
 
 # ------------------------------------------------------------------ helpers
@@ -839,6 +841,94 @@ def composite_bases(ctx, k):
     ctx.nontrivial("composite-basis", kind, n1, n2)
 
 
+# ------------------------------------------------------------------ a really fresh interpreter
+PROBES = {
+    # name: source of a function probe() -> list of arrays (run alone in a new interpreter, and here after a history)
+    "tet-adaptive-ties": """
+def probe():
+    import numpy as np, skfem
+    m = skfem.MeshTet().refined(1)            # many cells with several longest edges of equal length
+    c = m.refined(np.array([0, 5, 17]))
+    c2 = c.refined(np.array([1, 2]))
+    return [c.p, c.t, c2.p, c2.t]
+""",
+    "tet-adaptive-small-after-large": """
+def probe():
+    import numpy as np, skfem
+    m = skfem.MeshTet()
+    c = m.refined(np.array([0])).refined(np.array([0, 1]))
+    return [c.p, c.t]
+""",
+    "tri-adaptive-and-finder": """
+def probe():
+    import numpy as np, skfem
+    m = skfem.MeshTri().refined(2)
+    c = m.refined(np.array([0, 3, 9]))
+    f = c.element_finder()(np.array([0.3, 0.71]), np.array([0.2, 0.55]))
+    return [c.p, c.t, f]
+""",
+    "eigen-solver-defaults": """
+def probe():
+    import numpy as np, skfem
+    from skfem.models.poisson import laplace, mass
+    from skfem.utils import solver_eigen_scipy_sym
+    b = skfem.Basis(skfem.MeshTri().refined(3), skfem.ElementTriP1())
+    L, X = skfem.solve(*skfem.condense(laplace.assemble(b), mass.assemble(b), D=b.get_dofs()),
+                       solver=solver_eigen_scipy_sym(k=4, sigma=0.0))
+    return [np.round(np.sort(L), 8)]
+""",
+}
+HISTORY = """
+def history():
+    import numpy as np, skfem
+    from skfem.models.poisson import laplace, mass
+    from skfem.utils import solver_eigen_scipy_sym
+    big = skfem.MeshTet().refined(2)
+    big.refined(np.arange(0, big.t.shape[1], 3))
+    skfem.MeshTet.init_tensor(*(np.linspace(0, 1, 4),) * 3).refined(np.array([1, 2, 3]))
+    skfem.MeshTri().refined(3).refined(np.arange(10))
+    b = skfem.Basis(skfem.MeshTri().refined(2), skfem.ElementTriP2())
+    s = solver_eigen_scipy_sym(k=2, sigma=1.0)
+    skfem.solve(*skfem.condense(laplace.assemble(b), mass.assemble(b), D=b.get_dofs()), solver=s)
+    skfem.solve(*skfem.condense(laplace.assemble(b), mass.assemble(b), D=b.get_dofs()), solver=s, k=3)
+    np.random.seed(99)
+    np.random.rand(5)
+"""
+
+
+def fresh_interpreter(ctx, k):
+    """"the same whether computed first in a fresh interpreter or after any sequence of other operations": the
+    probe is run alone in a new interpreter (subprocess) and here, in this process, after a history of other
+    operations (and after everything the earlier families did)."""
+    import json
+    import subprocess
+    import sys
+    names = sorted(PROBES)
+    name = names[k % len(names)]
+    src = PROBES[name]
+    code = ("import sys, json, hashlib\nimport numpy as np\n" + src +
+            "\nout = probe()\nprint('RESULT ' + json.dumps([hashlib.blake2b(np.ascontiguousarray(a).tobytes(), digest_size=12).hexdigest()"
+            " + str(np.asarray(a).shape) for a in out]))\n")
+    from ..engine import REPO
+    env = dict(os.environ, PYTHONPATH=REPO, PYTHONHASHSEED="0")
+    r = subprocess.run([sys.executable, "-B", "-c", code], capture_output=True, text=True, timeout=300, env=env)
+    line = [l for l in r.stdout.splitlines() if l.startswith("RESULT ")]
+    if r.returncode != 0 or not line:
+        raise Skip("fresh-interpreter-run-failed:" + (r.stderr or "")[-120:])
+    fresh = json.loads(line[0][7:])
+    ns = {}
+    exec(HISTORY, ns)
+    exec(src, ns)
+    ns["history"]()
+    here = [hashlib.blake2b(np.ascontiguousarray(a).tobytes(), digest_size=12).hexdigest() + str(np.asarray(a).shape)
+            for a in ns["probe"]()]
+    ctx.check("pooled-equals-fresh", here == fresh, mech=f"differs-from-fresh-interpreter:{name}", probe=name,
+              here=here[:4], fresh=fresh[:4])
+    ctx.reached("fresh-interpreter-reference")
+    ctx.nontrivial("fresh-interpreter", name)
+
+
 FAMILIES = [Family("programs", program, 160, 3200, budget={"quick": 80, "thorough": 1500}),
             Family("retained-basis", retained_basis, 48, 960, budget={"quick": 40, "thorough": 600}),
-            Family("composite-bases", composite_bases, 16, 320, budget={"quick": 20, "thorough": 300})]
+            Family("composite-bases", composite_bases, 16, 320, budget={"quick": 20, "thorough": 300}),
+            Family("fresh-interpreter", fresh_interpreter, 4, 8, budget={"quick": 60, "thorough": 120})]
